@@ -303,6 +303,10 @@ def run(model, tier="quick"):
     # constructors establish the relations between fields that the references above take for granted
     from .ctor_refs import constructors
     res.units["constructor_references"] = constructors(res, model, ('market', 'broker'))
+    # premise: every market attached to a broker reports its actions to THAT broker's recorder (rebinding is unconditional)
+    from . import C19 as _C19
+    effects_check(res, model, "Broker.add_market", _C19.REF_ADD_MARKET,
+                  "add_market rebinds the market's broker and action callback unconditionally", [], keep_raise_effects=True)
     from ..rules.fresh import fresh_rule
     if "R-FRESH" not in res.rules:
         res.rules.append("R-FRESH")
